@@ -8,7 +8,7 @@ import time
 
 VERIF = os.path.dirname(os.path.dirname(os.path.abspath(__file__)))
 SPECS = os.path.join(VERIF, "specs")
-WORK = os.path.join(VERIF, "work")
+WORK = os.path.join(os.environ.get("VERIF_OUT", VERIF), "work")
 
 
 class TLCError(Exception):
